@@ -301,6 +301,8 @@ func RunC03(cfg simrt.Config, o world.Opts) *world.Result {
 		}
 	}
 	h := world.NewHasher()
+	refwire.NestedWalk = func() bool { return simrt.Flip("c03.nested-walk", 0.1) }
+	defer func() { refwire.NestedWalk = nil }()
 	s.Inline(func() {
 		// pre-history: other inputs decoded first in the same process, so that whatever an
 		// earlier (often failing) decode left in the pooled readers and lazy containers is
